@@ -20,7 +20,7 @@ use std::sync::{Arc, Mutex};
 pub fn def() -> PropDef {
     PropDef {
         id: "C16",
-        rule: "1 thread x every script of 3..4 steps (thorough 5); 2 threads x scripts of <=2 steps (thorough: 3 steps against <=2) and 3 threads x scripts of <=2 steps over {fail with one of nine messages through seven table entries (raw_name_from_str and rename fail in two ways each; set_raw_name, delete and set_name fail inside an iteration callback), succeed, read description through the thread's last CErr*, look again at the description text retrieved earlier}; every interleaving of the steps (step-level points, unbounded) and, with the library's yield points around the error store enabled, every interleaving with at most 2 preemptions; the same step-level exploration with all threads working on ONE packet handed from thread to thread; each execution runs on real OS threads under a baton scheduler and is compared with the per-thread expectation; distinct classes = (threads, script shapes, own or shared packet, whether a foreign failure lies between a failure and its read)",
+        rule: "1 thread x every script of 3..4 steps (thorough 5); 2 threads x scripts of <=2 steps (thorough: 3 steps against <=2) and 3 threads x scripts of <=2 steps over {fail with one of nine messages through seven table entries (raw_name_from_str and rename fail in two ways each; set_raw_name, delete and set_name fail inside an iteration callback), succeed (add_to_answer; in the single-thread scripts also rename, delete and set_raw_name inside a callback, raw_name_from_str), read description through the thread's last CErr*, look again at the description text retrieved earlier}; every interleaving of the steps (step-level points, unbounded) and, with the library's yield points around the error store enabled, every interleaving with at most 2 preemptions; the same step-level exploration with all threads working on ONE packet handed from thread to thread; each execution runs on real OS threads under a baton scheduler and is compared with the per-thread expectation; distinct classes = (threads, script shapes, own or shared packet, whether a foreign failure lies between a failure and its read)",
         run,
         replay,
         bounds: |t| json!({"threads": [2, 3], "steps_2_threads": t.pick(2, 3), "steps_3_threads": 2, "preemption_bound_with_library_points": t.pick(2, 3), "max_executions_per_tuple": 20000}),
@@ -44,6 +44,9 @@ pub fn def() -> PropDef {
 pub enum Step {
     Fail(u8),
     Succeed,
+    /// successful calls through other entries: 0 rename_with_raw_names, 1 delete inside an iteration callback,
+    /// 2 raw_name_from_str, 3 set_raw_name inside an iteration callback
+    SucceedVia(u8),
     Read,
     /// look again at the description text retrieved earlier (the char pointer the thread still holds),
     /// without any table call: it must have stayed intact
@@ -54,6 +57,7 @@ fn step_char(s: Step) -> char {
     match s {
         Step::Fail(k) => (b'A' + k) as char,
         Step::Succeed => 's',
+        Step::SucceedVia(k) => (b'0' + k) as char,
         Step::Read => 'r',
         Step::Peek => 'p',
     }
@@ -65,6 +69,7 @@ fn parse_script(s: &str) -> Vec<Step> {
             's' => Step::Succeed,
             'r' => Step::Read,
             'p' => Step::Peek,
+            c if c.is_ascii_digit() => Step::SucceedVia(c as u8 - b'0'),
             c => Step::Fail(c as u8 - b'A'),
         })
         .collect()
@@ -182,6 +187,57 @@ fn do_step(t: &FnTable, c: &mut ThreadCtx, s: Step) -> Result<String, String> {
                 }
                 Ok("ok".into())
             }
+            Step::SucceedVia(k) => {
+                let mut err: *const CErr = std::ptr::null();
+                let rc = match k {
+                    0 => {
+                        let tgt = [1u8, b'k', 0];
+                        let src = [1u8, b'b', 1, b'a', 0];
+                        (t.rename_with_raw_names)(&mut *c.pp, &mut err, tgt.as_ptr(), tgt.len(), src.as_ptr(), src.len(), true)
+                    }
+                    2 => {
+                        let mut raw = [0u8; 256];
+                        let mut raw_len: libc::size_t = 0;
+                        let name = b"fine.example";
+                        (t.raw_name_from_str)(&mut raw, &mut raw_len, &mut err, name.as_ptr() as *const _, name.len())
+                    }
+                    _ => {
+                        struct Cb<'a> {
+                            t: &'a FnTable,
+                            k: u8,
+                            rc: libc::c_int,
+                            done: bool,
+                        }
+                        unsafe extern "C" fn cb(ctx: *mut libc::c_void, it: *const SectionIterator) -> bool {
+                            unsafe {
+                                let c = &mut *(ctx as *mut Cb);
+                                let it = &mut *(it as *mut SectionIterator);
+                                if !c.done {
+                                    c.done = true;
+                                    let mut e: *const CErr = std::ptr::null();
+                                    if c.k == 1 {
+                                        c.rc = (c.t.delete)(it, &mut e);
+                                    } else {
+                                        let n = [2u8, b'o', b'k', 0];
+                                        c.rc = (c.t.set_raw_name)(it, &mut e, n.as_ptr(), n.len());
+                                    }
+                                }
+                                false
+                            }
+                        }
+                        let mut e0: *const CErr = std::ptr::null();
+                        let txt = CString::new("it. 1 IN A 9.9.9.8").unwrap();
+                        let _ = (t.add_to_answer)(&mut *c.pp, &mut e0, txt.as_ptr());
+                        let mut cbs = Cb { t, k, rc: -7, done: false };
+                        (t.iter_answer)(&mut *c.pp, cb, &mut cbs as *mut Cb as *mut libc::c_void);
+                        cbs.rc
+                    }
+                };
+                if rc != 0 {
+                    return Err(format!("succeeding call via entry {} returned {}", k, rc));
+                }
+                Ok("ok".into())
+            }
             Step::Read => {
                 if c.last_err.is_null() {
                     return Ok("read:none".into());
@@ -294,7 +350,7 @@ fn judge(scripts: &[Vec<Step>], obs: &[Obs], exp: &[String]) -> Result<bool, Str
                         }
                     }
                 }
-                Step::Succeed => {}
+                Step::Succeed | Step::SucceedVia(_) => {}
             }
         }
     }
@@ -302,13 +358,21 @@ fn judge(scripts: &[Vec<Step>], obs: &[Obs], exp: &[String]) -> Result<bool, Str
 }
 
 fn scripts_upto(n: usize) -> Vec<Vec<Step>> {
-    let alpha = [Step::Fail(0), Step::Fail(1), Step::Fail(2), Step::Fail(3), Step::Fail(4), Step::Fail(5), Step::Fail(6), Step::Fail(7), Step::Fail(8), Step::Succeed, Step::Read, Step::Peek];
+    scripts_over(n, false)
+}
+
+/// `all_entries`: successful calls through every kind of entry, not only add_to_answer
+fn scripts_over(n: usize, all_entries: bool) -> Vec<Vec<Step>> {
+    let mut alpha = vec![Step::Fail(0), Step::Fail(1), Step::Fail(2), Step::Fail(3), Step::Fail(4), Step::Fail(5), Step::Fail(6), Step::Fail(7), Step::Fail(8), Step::Succeed, Step::Read, Step::Peek];
+    if all_entries {
+        alpha.extend([Step::SucceedVia(0), Step::SucceedVia(1), Step::SucceedVia(2), Step::SucceedVia(3)]);
+    }
     let mut out: Vec<Vec<Step>> = vec![];
     let mut cur: Vec<Vec<Step>> = vec![vec![]];
     for _ in 0..n {
         let mut nxt = vec![];
         for c in &cur {
-            for a in alpha {
+            for a in alpha.iter().cloned() {
                 let mut d = c.clone();
                 d.push(a);
                 nxt.push(d);
@@ -448,7 +512,7 @@ fn run(ctx: &mut Ctx, rep: &mut Report) {
     // re-reads until its next failure (no interleaving to explore: one execution per script)
     {
         let n1 = ctx.tier.pick(4, 5);
-        for sc in scripts_upto(n1).into_iter().filter(|s| s.len() >= 3) {
+        for sc in scripts_over(n1, true).into_iter().filter(|s| s.len() >= 3) {
             gi += 1;
             if !ctx.mine(gi) || ctx.timed_out() {
                 continue;
